@@ -11,7 +11,7 @@ mod bc_common;
 
 use bc_common::*;
 use rre_verif::*;
-use rust_rule_engine::backward::BackwardEngine;
+use rust_rule_engine::backward::{BackwardEngine, GRLQuery, GRLQueryExecutor, GRLSearchStrategy};
 use rust_rule_engine::engine::rule::Rule;
 use rust_rule_engine::rete::propagation::IncrementalEngine;
 use rust_rule_engine::rete::{FactHandle, FactValue, TypedFacts};
@@ -37,6 +37,11 @@ enum Step {
     Remove(String),
     /// retract, in the attached RETE engine, the explicit fact that mirrors this dotted field
     ReteRetract(String),
+    /// `engine.set_config(..)`: from here on the fresh engine is built with this configuration
+    SetConfig(Cfg),
+    /// (goal, negated, per-query configuration): asked through `GRLQueryExecutor::execute`, which
+    /// re-applies the query's own configuration to the living engine on every call
+    GrlQuery(Atom, bool, Cfg),
 }
 
 impl Step {
@@ -46,6 +51,8 @@ impl Step {
             Step::Set(f, v) => json!(["set", f, lit_to_json(v)]),
             Step::Remove(f) => json!(["remove", f]),
             Step::ReteRetract(f) => json!(["rete_retract", f]),
+            Step::SetConfig(c) => json!(["set_config", cfg_to_json(c)]),
+            Step::GrlQuery(a, n, c) => json!(["grl_query", atom_to_json(a), qtext(a, *n), n, cfg_to_json(c)]),
         }
     }
     fn from_json(j: &Json) -> Option<Step> {
@@ -55,6 +62,8 @@ impl Step {
             "set" => Step::Set(a.get(1)?.as_str()?.to_string(), lit_from_json(a.get(2)?)?),
             "remove" => Step::Remove(a.get(1)?.as_str()?.to_string()),
             "rete_retract" => Step::ReteRetract(a.get(1)?.as_str()?.to_string()),
+            "set_config" => Step::SetConfig(cfg_from_json(a.get(1)?)?),
+            "grl_query" => Step::GrlQuery(atom_from_json(a.get(1)?)?, a.get(3).and_then(|v| v.as_bool()).unwrap_or(false), cfg_from_json(a.get(4)?)?),
             _ => return None,
         })
     }
@@ -94,7 +103,7 @@ impl HCase {
         })
     }
     fn order_dependent(&self) -> bool {
-        self.steps.iter().any(|s| matches!(s, Step::Query(g, _) if top_candidates(&self.kb, g) > 1))
+        self.steps.iter().any(|s| matches!(s, Step::Query(g, _) | Step::GrlQuery(g, _, _) if top_candidates(&self.kb, g) > 1))
     }
 }
 
@@ -151,6 +160,28 @@ fn ask(engine: &mut BackwardEngine, facts: &mut Facts, rete: &Option<Arc<Mutex<I
     }
 }
 
+fn grl_query_of(text: &str, cfg: &Cfg) -> GRLQuery {
+    let mut q = GRLQuery::new("Q".to_string(), text.to_string());
+    q.strategy = match cfg.strat {
+        Strat::Dfs => GRLSearchStrategy::DepthFirst,
+        Strat::Bfs => GRLSearchStrategy::BreadthFirst,
+        Strat::Iter => GRLSearchStrategy::Iterative,
+    };
+    q.max_depth = cfg.max_depth;
+    q.max_solutions = cfg.max_solutions;
+    q.enable_memoization = cfg.memo;
+    q
+}
+
+fn ask_grl(engine: &mut BackwardEngine, facts: &mut Facts, text: &str, cfg: &Cfg) -> Ans {
+    let q = grl_query_of(text, cfg);
+    match pan::catch(|| GRLQueryExecutor::execute(&q, engine, facts)) {
+        Ok(Ok(r)) => Ans::Provable(r.provable),
+        Ok(Err(_)) => Ans::Error,
+        Err(_) => Ans::Panic,
+    }
+}
+
 /// One run of the history: per query step (reused answer, fresh answer).
 struct Run {
     answers: Vec<(usize, Ans, Ans)>,
@@ -171,6 +202,7 @@ fn run_history(c: &HCase, rules: &[Rule]) -> Result<Run, String> {
         (None, Vec::new())
     };
     let mut answers = Vec::new();
+    let mut cur_cfg = c.cfg.clone();
     let mut seen_query = false;
     let mut edit_after_query = false;
     let mut edits_between_queries = false;
@@ -196,11 +228,30 @@ fn run_history(c: &HCase, rules: &[Rule]) -> Result<Run, String> {
                 }
                 edit_after_query |= seen_query;
             }
+            Step::SetConfig(n) => {
+                engine.set_config(n.engine());
+                cur_cfg = n.clone();
+            }
+            Step::GrlQuery(g, neg, qc) => {
+                let text = qtext(g, *neg);
+                let fresh_kb = make_kb(rules)?;
+                let mut fresh_engine = BackwardEngine::with_config(fresh_kb, qc.engine());
+                let mut fresh_facts = facts_from_map(&facts.get_all_facts());
+                let fresh = ask_grl(&mut fresh_engine, &mut fresh_facts, &text, qc);
+                let reused = ask_grl(&mut engine, &mut facts, &text, qc);
+                // the executor leaves the query's configuration in force
+                cur_cfg = qc.clone();
+                answers.push((i, reused, fresh));
+                if seen_query && edit_after_query {
+                    edits_between_queries = true;
+                }
+                seen_query = true;
+            }
             Step::Query(g, neg) => {
                 let text = qtext(g, *neg);
                 // the fresh engine first, on a deep copy of what the caller holds right now
                 let fresh_kb = make_kb(rules)?;
-                let mut fresh_engine = BackwardEngine::with_config(fresh_kb, c.cfg.engine());
+                let mut fresh_engine = BackwardEngine::with_config(fresh_kb, cur_cfg.engine());
                 let mut fresh_facts = facts_from_map(&facts.get_all_facts());
                 let fresh_rete = if c.rete {
                     Some(Arc::new(Mutex::new(populate_rete(&live).0)))
@@ -245,12 +296,19 @@ fn confirmed_mismatch(c: &HCase, rules: &[Rule], confirm: usize) -> Result<Optio
 }
 
 fn cause(c: &HCase, step: usize) -> &'static str {
-    if let Some(Step::Query(g, n)) = c.steps.get(step) {
+    if let Some(Step::Query(g, n) | Step::GrlQuery(g, n, _)) = c.steps.get(step) {
         let text = qtext(g, *n);
-        let asked_before = c.steps[..step].iter().any(|s| matches!(s, Step::Query(p, pn) if qtext(p, *pn) == text));
+        let asked_before = c.steps[..step].iter().any(|s| matches!(s, Step::Query(p, pn) | Step::GrlQuery(p, pn, _) if qtext(p, *pn) == text));
         // the engine caches verdicts by query TEXT only; a later identical text gets the old verdict
+        let reconfigured = c.steps[..=step].iter().any(|s| matches!(s, Step::SetConfig(_) | Step::GrlQuery(..)));
+        if asked_before && reconfigured {
+            return "same-query-text-asked-before-set_config";
+        }
         if c.cfg.memo && asked_before {
             return "same-query-text-asked-before-on-this-engine";
+        }
+        if reconfigured {
+            return "after-set_config";
         }
     }
     "unexplained"
@@ -258,7 +316,7 @@ fn cause(c: &HCase, step: usize) -> &'static str {
 
 fn violation_of(c: &HCase, m: &(usize, Ans, Ans)) -> Violation {
     let q = match c.steps.get(m.0) {
-        Some(Step::Query(g, n)) => qtext(g, *n),
+        Some(Step::Query(g, n) | Step::GrlQuery(g, n, _)) => qtext(g, *n),
         _ => String::new(),
     };
     Violation {
@@ -277,7 +335,7 @@ fn violation_of(c: &HCase, m: &(usize, Ans, Ans)) -> Violation {
 }
 
 fn still_fails(c: &HCase) -> bool {
-    if !c.steps.iter().any(|s| matches!(s, Step::Query(..))) {
+    if !c.steps.iter().any(|s| matches!(s, Step::Query(..) | Step::GrlQuery(..))) {
         return false;
     }
     let rules = build_rules_direct(&c.kb);
@@ -379,7 +437,13 @@ fn check_case(c: &HCase, rules: &[Rule], st: &mut Stats) {
     if run.leaked_frames > 0 {
         st.count("histories_that_ended_with_open_undo_frames");
     }
-    let repeated = c.steps.iter().enumerate().any(|(i, s)| matches!(s, Step::Query(g, n) if c.steps[..i].iter().any(|p| matches!(p, Step::Query(h, m) if h == g && m == n))));
+    let repeated = c.steps.iter().enumerate().any(|(i, s)| matches!(s, Step::Query(g, n) | Step::GrlQuery(g, n, _) if c.steps[..i].iter().any(|p| matches!(p, Step::Query(h, m) | Step::GrlQuery(h, m, _) if h == g && m == n))));
+    if c.steps.iter().any(|s| matches!(s, Step::SetConfig(_))) {
+        st.count("histories_with_set_config_between_steps");
+    }
+    if c.steps.iter().any(|s| matches!(s, Step::GrlQuery(..))) {
+        st.count("histories_with_queries_through_GRLQueryExecutor");
+    }
     if repeated {
         st.count("histories_repeating_a_query_text");
     }
@@ -513,8 +577,37 @@ fn gen_history(rng: &mut Rng, plan: &Plan) -> (FactsG, Vec<Step>, bool) {
         let (f, v) = rng.pick(&plan.chain).clone();
         steps = vec![Step::Set(f.clone(), v.clone()), Step::Query(g.clone(), false), Step::Set(f.clone(), print_alike(&v)), Step::Query(g.clone(), false), Step::Set(f, v), Step::Query(g, false)];
     }
-    steps.truncate(6);
-    if !matches!(steps.last(), Some(Step::Query(..))) {
+    if rng.chance(1, 5) && steps.len() >= 2 {
+        // reconfigure the living engine somewhere after the first step
+        let at = 1 + rng.below(steps.len() - 1);
+        let n_rules = plan.kb.rules.len();
+        steps.insert(at, Step::SetConfig(gen_cfg_c11(rng, n_rules)));
+    }
+    if rng.chance(1, 8) {
+        // the same question before and after a reconfiguration, facts untouched: a shallow or
+        // breadth-first configuration first (fewer things provable), then a generous one, or the
+        // other way round
+        let g = rng.pick(&pool).clone();
+        let small = Cfg { max_depth: rng.below(3), strat: *rng.pick(&[Strat::Dfs, Strat::Bfs, Strat::Iter]), max_solutions: 1, memo: true };
+        let big = Cfg { max_depth: 6, strat: Strat::Dfs, max_solutions: *rng.pick(&[1usize, 3]), memo: true };
+        let (a, b) = if rng.bool() { (small, big) } else { (big, small) };
+        let neg = rng.chance(1, 6);
+        steps = if rng.bool() {
+            vec![Step::SetConfig(a), Step::Query(g.clone(), neg), Step::SetConfig(b), Step::Query(g, neg)]
+        } else {
+            vec![Step::GrlQuery(g.clone(), neg, a), Step::GrlQuery(g, neg, b)]
+        };
+    } else if rng.chance(1, 8) {
+        // every query of the history goes through the executor with its own configuration
+        let n_rules = plan.kb.rules.len();
+        for s in steps.iter_mut() {
+            if let Step::Query(g, n) = s {
+                *s = Step::GrlQuery(g.clone(), *n, gen_cfg_c11(rng, n_rules));
+            }
+        }
+    }
+    steps.truncate(7);
+    if !matches!(steps.last(), Some(Step::Query(..) | Step::GrlQuery(..))) {
         steps.pop();
         steps.push(Step::Query(rng.pick(&pool).clone(), false));
     }
@@ -528,7 +621,7 @@ impl Check for C11 {
         "C11"
     }
     fn rule(&self) -> String {
-        "random: KBs from the C09 generator (Horn rules from GRL text, chains to depth 6 plus distractors), 8 histories per KB of 2..=6 steps on ONE engine: query (from a pool of 1..=3 goals, so texts repeat), caller-side set / remove of chain roots, chain nodes and derived fields, and with an attached IncrementalEngine (1/4 of the histories) retraction of the mirrored explicit fact there; configuration: memoisation on (5/6; off 1/6 as a control), dfs 8/10, bfs, iterative, max_depth 2/4/6 or the default 10 for KBs of <= 4 rules. Before every query step a freshly built engine answers the same query on a deep copy of the facts. exhaustive: for K generated KBs (10 quick / 50 thorough) ALL 5^4 histories of length 4 over {query q1, query q2, set root, remove root, remove the field q1 asks about} (every prefix is checked, so all shorter histories too). A history is non-trivial when it has >= 2 queries with a fact edit between two of them and at least one provable answer; distinct by structural hash. A mismatch is judged only if it reproduces identically in every one of 2..9 further runs (the engine's candidate order comes from a HashSet).".into()
+        "random: KBs from the C09 generator (Horn rules from GRL text, chains to depth 6 plus distractors), 8 histories per KB of 2..=6 steps on ONE engine: query (from a pool of 1..=3 goals, so texts repeat), caller-side set / remove of chain roots, chain nodes and derived fields, and with an attached IncrementalEngine (1/4 of the histories) retraction of the mirrored explicit fact there; configuration: memoisation on (5/6; off 1/6 as a control), dfs 8/10, bfs, iterative, max_depth 2/4/6 or the default 10 for KBs of <= 4 rules. In 1/5 of the histories one `set_config` step with another generated configuration is inserted; in 1/8 the history is the same question before and after a reconfiguration on untouched facts (max_depth 0..=2 / bfs / iterative vs depth-first 6, either order; through set_config or through GRLQueryExecutor::execute, which re-applies a per-query configuration); in 1/8 every query goes through GRLQueryExecutor::execute with its own configuration. Before every query step a freshly built engine WITH THE CONFIGURATION IN FORCE AT THAT MOMENT answers the same query on a deep copy of the facts. exhaustive: for K generated KBs (10 quick / 50 thorough) ALL 5^4 histories of length 4 over {query q1, query q2, set root, remove root, remove the field q1 asks about} (every prefix is checked, so all shorter histories too). A history is non-trivial when it has >= 2 queries with a fact edit between two of them and at least one provable answer; distinct by structural hash. A mismatch is judged only if it reproduces identically in every one of 2..9 further runs (the engine's candidate order comes from a HashSet).".into()
     }
     fn assumptions(&self) -> Vec<String> {
         vec![
